@@ -400,6 +400,16 @@ class ManifestContext:
             dc = DrmContext(stream, keys, self.options)
             adp.drm = dc.manifest_context
             adp.default_kid = list(keys.keys())[0]
+            try:
+                # the template asks for this data while it is rendered. Find
+                # out now if it can not be produced (e.g. a license URL whose
+                # expanded form does not fit into a PlayReady Object)
+                for drm in dc.manifest_context.values():
+                    for create in (drm.pro, drm.cenc):
+                        if create is not None:
+                            create(adp.default_kid)
+            except ValueError as err:
+                raise ManifestNotAvailable(f'invalid DRM parameters: {err}')
         return period
 
     def calculate_video_adaptation_set(
